@@ -25,6 +25,19 @@ func init() {
 
 func hexStr(s string) string { return canon.Hex([]byte(s)) }
 
+// effectiveEndian: the `endianness` key, or the `endian` spelling when the tree under test knows it
+// (looked up by reflection so that the harness also builds against trees without that field)
+func effectiveEndian(entry interface{}) string {
+	v := reflect.ValueOf(entry)
+	e := v.FieldByName("Endian").String()
+	if e == "" {
+		if f := v.FieldByName("EndianShort"); f.IsValid() {
+			e = f.String()
+		}
+	}
+	return e
+}
+
 func bit(b bool) string {
 	if b {
 		return "1"
@@ -73,7 +86,7 @@ func twinOf(pc *protoproducer.ProducerConfig) string {
 	nf := func(ms []protoproducer.NetFlowMapField) []string {
 		var it []string
 		for _, m := range ms {
-			it = append(it, fmt.Sprintf("%s:%d:%d:%s:%s", bit(m.PenProvided), m.Pen, m.Type, hexStr(m.Destination), hexStr(string(m.Endian))))
+			it = append(it, fmt.Sprintf("%s:%d:%d:%s:%s", bit(m.PenProvided), m.Pen, m.Type, hexStr(m.Destination), hexStr(effectiveEndian(m))))
 		}
 		return it
 	}
@@ -81,7 +94,7 @@ func twinOf(pc *protoproducer.ProducerConfig) string {
 	join("V", nf(pc.NetFlowV9.Mapping))
 	it = nil
 	for _, m := range pc.SFlow.Mapping {
-		it = append(it, fmt.Sprintf("%s:%s:%d:%d:%s:%s", hexStr(m.Layer), bit(m.Encapsulated), m.Offset, m.Length, hexStr(m.Destination), hexStr(string(m.Endian))))
+		it = append(it, fmt.Sprintf("%s:%s:%d:%d:%s:%s", hexStr(m.Layer), bit(m.Encapsulated), m.Offset, m.Length, hexStr(m.Destination), hexStr(effectiveEndian(m))))
 	}
 	join("L", it)
 	it = nil
@@ -276,4 +289,93 @@ func opPktf(st *state, args []string) []string {
 	pe.cap.full = true
 	defer func() { pe.cap.full = false }()
 	return opPkt(st, args)
+}
+
+func init() {
+	ops["keypair"] = opKeypair
+	calls["getbytes"] = callGetBytes
+	calls["getbytesall"] = callGetBytesAll
+}
+
+// keypair <cid> <msg1 tokens> | <msg2 tokens>: the partition keys of two messages
+func opKeypair(st *state, args []string) []string {
+	if len(args) < 1 {
+		return []string{"bad-op"}
+	}
+	cut := -1
+	for i, a := range args {
+		if a == "|" {
+			cut = i
+			break
+		}
+	}
+	if cut < 0 {
+		return []string{"bad-op"}
+	}
+	m1, ok1 := parseMsg(args[1:cut])
+	m2, ok2 := parseMsg(args[cut+1:])
+	if !ok1 || !ok2 {
+		return []string{"bad-op"}
+	}
+	f, err := formatterOf(args[0])
+	if err != nil {
+		return []string{resErr(err)}
+	}
+	m1.VerifSetFormatter(f)
+	m2.VerifSetFormatter(f)
+	return []string{"res ok", "key " + canon.Hex(m1.Key()), "key " + canon.Hex(m2.Key())}
+}
+
+func callGetBytes(st *state, args []string) []string {
+	if len(args) != 4 {
+		return []string{"bad-op"}
+	}
+	d, ok := unhex(args[0])
+	off, err1 := strconv.Atoi(args[1])
+	ln, err2 := strconv.Atoi(args[2])
+	if !ok || err1 != nil || err2 != nil {
+		return []string{"bad-op"}
+	}
+	out := protoproducer.GetBytes(d, off, ln, args[3] == "1")
+	return []string{"res ok", "out " + canon.Hex(out)}
+}
+
+// getbytesall <n> <off> <len> <shift>: FNV-1a digest over GetBytes of every n-byte buffer
+func callGetBytesAll(st *state, args []string) []string {
+	if len(args) != 4 {
+		return []string{"bad-op"}
+	}
+	n, err0 := strconv.Atoi(args[0])
+	off, err1 := strconv.Atoi(args[1])
+	ln, err2 := strconv.Atoi(args[2])
+	if err0 != nil || err1 != nil || err2 != nil || n < 0 || n > 3 {
+		return []string{"bad-op"}
+	}
+	total := 1
+	for i := 0; i < n; i++ {
+		total *= 256
+	}
+	h := uint64(14695981039346656037)
+	mix := func(x byte) { h = (h ^ uint64(x)) * 1099511628211 }
+	d := make([]byte, n)
+	for i := 0; i < total; i++ {
+		for j := 0; j < n; j++ {
+			d[j] = byte(i >> (8 * (n - 1 - j)))
+		}
+		var out []byte
+		func() {
+			defer func() {
+				if r := recover(); r != nil {
+					out = []byte{255}
+					mix(255)
+				}
+			}()
+			out = append([]byte{}, protoproducer.GetBytes(append([]byte{}, d...), off, ln, args[3] == "1")...)
+			mix(byte(len(out)))
+		}()
+		for _, x := range out {
+			mix(x)
+		}
+	}
+	return []string{"res ok", fmt.Sprintf("digest %d", h)}
 }
